@@ -1,7 +1,7 @@
 (** C13 - property theorems about single steps of the SMO model C13/Model.v (statements only; proofs are in
     C13/ProofsStep.v, the notions in C13/SpecStep.v).  The model is the one the correspondence replays against
     linfa-svm bit for bit (C13/Corr.v, corr bits 2..16); these are statements about the model, for ALL states. *)
-From Coq Require Import List NArith Arith Reals Permutation.
+From Coq Require Import List NArith Arith Reals Permutation Floats.
 From LinfaVerif Require Import Common.Num Common.QF C13.Model C13.SpecStep C13.ProofsStep.
 Import ListNotations.
 
@@ -37,3 +37,20 @@ Theorem update_keeps_equality : forall tiny (P : problem (F := R)) s i j n,
   (nth i (sT s) true = nth j (sT s) true -> Rsum (sA s') = Rsum (sA s)) /\
   sU s' = sU s /\ sT s' = sT s /\ length (sA s') = n.
 Proof. exact update_keeps_equality_l. Qed.
+
+(** nu-SVC (repair 4625418 of finding F-C13-S1), any arithmetic: whenever the model of fit_nu publishes stored support
+    vectors, they are the samples of exactly the PUBLISHED coefficients (after the division by r) that exceed the
+    threshold - the hypothesis under which [weighted_sum_pairs] (C13/Properties.v) pairs every stored vector with its own
+    coefficient *)
+Theorem fit_nu_svc_stores_published_sv : forall F (o : NumOps F) (inf tiny feps : F) fuel K rows tgs eps shr lin nu m sv,
+  fit_nu_svc o inf tiny feps fuel K rows tgs eps shr lin nu = Fitted m -> mSep m = HSupport sv ->
+  sv = support_vectors o feps rows (mAlpha m).
+Proof. intros F o. exact (@fit_nu_svc_stores_published_sv_l F o). Qed.
+
+(** the selection before the repair (by the undivided coefficients) did not have this property: r = 2^60 *)
+Theorem nusvc_pre_repair_selection_refuted :
+  let published := map (fun x => PrimFloat.div x exS1_r) exS1_alpha in
+  length (nusvc_pre_repair_sv B64_ops 0x1p-52%float exS1_rows exS1_alpha) = 2%nat /\
+  length (filter (is_support B64_ops 0x1p-52%float) published) = 0%nat /\
+  length (support_vectors B64_ops 0x1p-52%float exS1_rows published) = 0%nat.
+Proof. exact nusvc_pre_repair_refuted_l. Qed.
